@@ -60,6 +60,7 @@ type c15Catalog struct {
 	now   time.Time
 	// downstream database holding the same-named collection, for collections whose source database is gone ("" = nowhere)
 	downDB map[string]string
+	idStart string
 }
 
 func genCatalog(t *rapid.T, withTarget bool) *c15Catalog {
@@ -80,7 +81,11 @@ func genCatalog(t *rapid.T, withTarget bool) *c15Catalog {
 		}
 		c.dbs = append(c.dbs, d)
 	}
-	cid, pid := int64(100), int64(1000)
+	// ids are allocated upwards from a drawn start, so that they may cross a power of ten within one catalog (etcd lists keys
+	// as strings: ".../100" sorts before ".../98", the listing order is then not the creation order)
+	cid := int64(rapid.SampledFrom([]int{100, 100, 96, 7, 997}).Draw(t, "firstCollectionID"))
+	pid := int64(rapid.SampledFrom([]int{1000, 1000, 95, 8, 9996}).Draw(t, "firstPartitionID"))
+	c.idStart = fmt.Sprintf("%d/%d", cid, pid)
 	for _, d := range c.dbs {
 		for _, name := range []string{"c1", "c2"} {
 			if rapid.IntRange(0, 3).Draw(t, "nameUsed") == 0 {
@@ -388,6 +393,7 @@ func propC15(t *rapid.T) {
 	sc.ClassIf(both, "dropped+live-namesake")
 	sc.ClassIf(multiDB, "same-name-in-several-databases")
 	sc.ClassIf(len(want[util.DroppedDatabaseKey]) > 0, "database-gone-upstream-present-downstream")
+	sc.ClassIf(c.idStart != "100/1000", "ids-crossing-a-power-of-ten")
 	sc.Count("entries_compared", len(want[util.DroppedCollectionKey])+len(want[util.DroppedPartitionKey])+len(want[util.DroppedDatabaseKey]))
 	sc.NonTrivial(both || multiDB)
 	sc.Fingerprint(c.describe())
